@@ -177,6 +177,54 @@ def run(cx):
                                at=b.span_at(loc))
 
 
+def ack_recording(cx, iid):
+    """receiver side: an ack group reproduces the nonce parity of exactly the frames seen: a frame
+    inside the last group's 32-id span sets its own bit once and folds its nonce in with it; any
+    other accepted frame opens a new group {base: id, bitfield: 1, nonce}"""
+    R = cx.R
+    with cx.instance(iid, "T7 SHAPE + T1", "mark_seen records bit (id - base) and XORs the frame's nonce exactly once per frame; new groups start as {id, 1, nonce}", floor=4) as inst:
+        b = R.body("FrameAckQueue::mark_seen")
+        last = r"VecDeque::back_mut\(arg1\.entries\)@Some\.0"
+        bit = r"u32::wrapping_sub\(arg2,%s\.base_id\)" % last
+        ws = {}
+        for l, node, ps in b.field_writes(r".*\.(bitfield|nonce)"):
+            v = show(b.rvalue_expr(node["rv"]))
+            ws[ps.split(".")[-1]] = (l, ps, v)
+            inst.site(b, l, "%s = %s" % (ps[-30:], v[:90]))
+        import re as _re
+        okb = "bitfield" in ws and _re.fullmatch(r"bitor\((%s\.bitfield,shl\(1,%s\)|shl\(1,%s\),%s\.bitfield)\)" % (last, bit, bit, last), ws["bitfield"][2])
+        okn = "nonce" in ws and _re.fullmatch(r"bitxor\((%s\.nonce,arg3|arg3,%s\.nonce)\)" % (last, last), ws["nonce"][2])
+        if not okb:
+            inst.violation(b.path, "bit recording", "a seen frame is recorded as `%s`" % (ws.get("bitfield", (0, 0, None))[2],))
+        if not okn:
+            inst.violation(b.path, "nonce folding", "a seen frame's nonce is folded as `%s`" % (ws.get("nonce", (0, 0, None))[2],))
+        sinks = [(ws[k][0], "update " + k) for k in ws]
+        cx.guard(inst, b, sinks, [[r"lt\(%s,32\)" % bit, r"eq\(0,bitand\(%s\.bitfield,shl\(1,%s\)\)\)" % (last, bit)]], construct="ack bit/nonce updated outside its guard",
+                 why="a frame counted twice (or beyond bit 31) flips the group's parity: the sender rejects the acknowledgement", checked_before=True)
+        if "bitfield" in ws and "nonce" in ws:
+            cx.followed_by(inst, b, [(ws["bitfield"][0], "set bit")], [ws["nonce"][0]], "bit set without folding the nonce", "nonce ^= frame nonce")
+        pbs = call_sites(b, "VecDeque::push_back", r"arg1\.entries")
+        for l, lab in pbs:
+            e = show(b.call_expr(b.node_at(l)))
+            inst.site(b, l, e)
+            if e != "VecDeque::push_back(arg1.entries,AckGroup{arg2,1,arg3})":
+                inst.violation(b.path, "new ack group", "a new ack group is created as `%s`, expected {base_id: frame id, bitfield: 1, nonce: frame nonce}" % e[:120], at=b.span_at(l))
+        cx.guard(inst, b, pbs, [[r"is\(VecDeque::back_mut\(arg1\.entries\),None\)"], [r"le\(32,%s\)" % bit]], construct="new group although the frame fits the last one")
+        # emit side: groups are handed to the emitter unchanged and popped only after a successful push
+        ea = R.body("half_connection::HalfConnection::emit_ack_frames")
+        pops = call_sites(ea, "FrameAckQueue::pop")
+        cx.guard(inst, ea, pops, [[r"is\(AckFrameEmitter::push\(var\d+,FrameAckQueue::peek\(arg1\.frame_ack_queue\)@Some\.0\),Ok\)"]], construct="ack group dropped without being sent",
+                 why="an acknowledgement group removed before it was put into a frame is lost: the sender never learns of those frames")
+
+
+_run_core = run
+
+
+def run(cx):
+    _run_core(cx)
+    ack_recording(cx, "C15.e")
+
+
 SELFTEST = [
     {"name": "skip the ack.nonce != true_nonce return",
      "edits": [{"file": "src/half_connection/frame_queue.rs", "old": "        if ack.nonce != true_nonce {\n            // Penalize bad nonce\n            return;\n        }\n", "new": ""}],
